@@ -26,6 +26,7 @@ type c16Spec struct {
 	Foundation string
 	TCP        TCPType
 	RelAddr    string
+	ReadBetween int // bit i: Marshal/Priority/Extensions are read before extension i is added
 	RelPort    int
 	RelayProto string
 	Exts       []CandidateExtension
@@ -33,7 +34,7 @@ type c16Spec struct {
 
 func (s c16Spec) String() string {
 	return fmt.Sprintf("{typ=%s net=%s addr=%s port=%d comp=%d prio=%d found=%q tcp=%q rel=%q:%d rproto=%q exts=%q}",
-		s.Typ, s.Network, s.Addr, s.Port, s.Comp, s.Prio, s.Foundation, s.TCP.String(), s.RelAddr, s.RelPort, s.RelayProto, s.Exts)
+		s.Typ, s.Network, s.Addr, s.Port, s.Comp, s.Prio, s.Foundation, s.TCP.String(), s.RelAddr, s.RelPort, s.RelayProto, s.Exts) + fmt.Sprintf(" readBetween=%b", s.ReadBetween)
 }
 
 func c16Build(s c16Spec) (Candidate, error) {
@@ -68,7 +69,12 @@ func c16Build(s c16Spec) (Candidate, error) {
 	if err != nil {
 		return nil, err
 	}
-	for _, e := range s.Exts {
+	for i, e := range s.Exts {
+		// the application may look at a candidate at any time: getters between the mutations must not
+		// influence what the candidate says afterwards
+		if s.ReadBetween&(1<<i) != 0 {
+			_, _, _ = c.Marshal(), c.Priority(), c.Extensions()
+		}
 		if err := c.AddExtension(e); err != nil {
 			return nil, err
 		}
@@ -204,17 +210,16 @@ func c16SpecGen() *rapid.Generator[c16Spec] {
 			}
 		}
 		nExt := rapid.IntRange(0, 4).Draw(t, "nExt")
+		if rapid.IntRange(0, 2).Draw(t, "gettersBetweenMutations") == 0 {
+			s.ReadBetween = rapid.IntRange(1, 15).Draw(t, "readBefore")
+		}
 		for i := 0; i < nExt; i++ {
 			var key string
 			switch rapid.IntRange(0, 5).Draw(t, "keyForm") {
 			case 0, 1, 2:
 				key = rapid.SampledFrom(c16ExtKeys).Draw(t, "key")
 			case 3:
-				if s.Typ == CandidateTypeHost {
-					key = "tcptype"
-				} else {
-					key = "generation"
-				}
+				key = "tcptype" // (the only public way to give a reflexive or relay candidate a TCP type)
 			default:
 				key = c16Token(false).Draw(t, "keyTok")
 			}
